@@ -73,6 +73,13 @@ def literal_key(k):
     return type(k) in (int, str) or (type(k) is tuple and all(type(x) is int for x in k))
 
 
+def outcome_(f):
+    try:
+        return ('ok', f())
+    except Exception as e:  # noqa: BLE001
+        return ('err', type(e).__name__)
+
+
 def oracle(impl, o):
     if 'zoo' in o:
         return zoo_oracle(o)
@@ -144,6 +151,38 @@ def check_tree(tree, kw):
                 fails.append({'key': 'slice-concat-access', 'what': 'acc[k:](acc[:k](tree)) is not the leaf'})
             if PyTreeAccessor(tuple(acc)) != acc or hash(PyTreeAccessor(tuple(acc))) != hash(acc):
                 fails.append({'key': 'accessor-eq-hash', 'what': 'an equal accessor compares or hashes differently'})
+            # an accessor is the tuple of its entries: every index / slice / concatenation / repetition says what the
+            # tuple says, and the result still walks the tree entry by entry
+            ents = tuple(acc)
+            n_e = len(ents)
+            bad = None
+            for j in range(-n_e - 1, n_e + 1):
+                want = outcome_(lambda: ents[j])
+                got = outcome_(lambda: acc[j])
+                if want[0] != got[0] or (want[0] == 'ok' and got[1] is not want[1] and got[1] != want[1]):
+                    bad = f'acc[{j}]'
+            bounds = [None, 0, 1, -1, 2, -2, n_e, -n_e, n_e + 2, -n_e - 2]
+            for a_ in bounds:
+                for b_ in bounds:
+                    for st in (None, 1, 2, -1, -2, 3):
+                        sl = slice(a_, b_, st)
+                        got = acc[sl]
+                        if tuple(got) != ents[sl] or not isinstance(got, PyTreeAccessor) or got.path != acc.path[sl]:
+                            bad = f'acc[{a_}:{b_}:{st}]'
+            if bad is None and n_e:
+                if tuple(acc[::-1][::-1]) != ents or acc[::-1][::-1](tree) is not leaf:
+                    bad = 'acc[::-1][::-1]'
+                if tuple(acc + acc[:1]) != ents + ents[:1] or tuple(acc * 2) != ents * 2 or tuple(2 * acc) != ents * 2 \
+                        or tuple(acc * 0) != ():
+                    bad = 'acc + / *'
+                for k2 in range(n_e + 1):
+                    if (acc[:k2] + acc[k2:]) != acc or acc[k2:](acc[:k2](tree)) is not leaf:
+                        bad = f'acc[:{k2}] + acc[{k2}:]'
+                if (acc == PyTreeAccessor(ents[:-1])) or (acc != PyTreeAccessor(ents)) or len(acc) != n_e or list(iter(acc)) != list(ents):
+                    bad = 'eq / len / iter'
+            if bad is not None:
+                fails.append({'key': 'accessor-sequence-protocol', 'what': f'{bad} differs from the same operation on the tuple of entries',
+                              'accessor': repr(acc)[:200]})
             # generated code
             if all(type(e).__name__ != 'FlattenedEntry' and literal_key(e.entry) for e in acc):
                 code = acc.codify('tree')
